@@ -71,6 +71,11 @@ def prepare(prop, tier, seed, r):
                                              flags=["-compress_paths", "-generate_simple_unions", "-ignore_shadow_schema_paths",
                                                     "-simplify_wildcard_paths=true"],
                                              attrs=dict(Compressed=True, Wrapper=False, Shadow=True, Simplify=True))
+        # path structs together with wrapper unions (no -generate_simple_unions): union list
+        # keys arrive as pointers to wrapper structs (KeyValueAsString's reflect.Ptr branch)
+        cfgs["vtocu/C-paths-wrapper"] = dict(pkg="vtocuw", files=["openconfig-vtocu.yang"], pathstructs=True,
+                                             flags=["-compress_paths"],
+                                             attrs=dict(Compressed=True, Wrapper=True))
     cfgs.update(random_cfgs(prop, tier, seed))
     gen, ok = {}, {}
     for name, spec in cfgs.items():
